@@ -76,11 +76,17 @@ func runC25(rc *RC) {
 	const name = "C25/map-parallel"
 	rc.Phase(name)
 	n := rc.Range(0, 9)
+	if rc.Pct(15) {
+		n = rc.Range(10, 24)
+	}
 	vals := make([]int, n)
 	for i := range vals {
 		vals[i] = 10 + i // unique values: each result is attributable to one item
 	}
 	cores := rc.Range(2, 6)
+	if rc.Pct(25) {
+		cores = []int{1, 7, 8, 9, 12, 16}[rc.Draw(6)]
+	}
 	fail := map[int]bool{}
 	for k := rc.Draw(3); k > 0 && n > 0; k-- {
 		fail[vals[rc.Draw(n)]] = true
@@ -112,8 +118,14 @@ func runC25(rc *RC) {
 	}
 	// half of the runs map a lambda with nested calls (deeper VM stacks in
 	// the forked per-worker VMs), the others the bare function symbol
-	useLambda := rc.Pct(50)
-	rc.Knob("lambda", map[bool]int{false: 0, true: 1}[useLambda])
+	lambda := rc.Pick(4, 3, 1, 1, 1)
+	useLambda := lambda > 0
+	rc.Knob("lambda", lambda)
+	lambdaText := []string{"", "{v -> verif-f (verif-id (verif-id v))}", "{v -> add-ints 100 (verif-f v)}", "{v -> add-ints (verif-id v) (verif-f (verif-id v))}", "{v -> add-ints (verif-f v) (add-ints (verif-id v) (verif-id 7))}"}[lambda]
+	// how the result is consumed: once; twice in a row; by two iterators of
+	// the same collection value moving in turns
+	consume := rc.Pick(8, 1, 1)
+	rc.Knob("consume", consume)
 	fs["verif-id"] = func(c *api.Context, v int) (int, error) {
 		if slowPct > 0 && (v*53)%100 < slowPct {
 			simrt.Yield("verif-id.slow")
@@ -127,7 +139,7 @@ func runC25(rc *RC) {
 		})
 		if useLambda {
 			var perr error
-			e, perr = api.ParseExpression("verif-source | " + fn + " {v -> verif-f (verif-id (verif-id v))}")
+			e, perr = api.ParseExpression("verif-source | " + fn + " " + lambdaText)
 			if perr != nil {
 				return nil, nil, fmt.Errorf("parse: %v", perr)
 			}
@@ -143,18 +155,63 @@ func runC25(rc *RC) {
 		if !ok {
 			return nil, nil, fmt.Errorf("result is %T, not a collection", v)
 		}
-		it := c.BeginUntyped()
-		for steps := 0; steps < 64; steps++ {
-			ok, nerr := it.Next()
-			if nerr != nil {
-				return items, nerr, nil
+		drain := func(it b6.Iterator[any, any], items *[]c25Item, done *bool, rerr *error, max int) {
+			for steps := 0; steps < max && !*done; steps++ {
+				ok, nerr := it.Next()
+				if nerr != nil {
+					*rerr, *done = nerr, true
+					return
+				}
+				if !ok {
+					*done = true
+					return
+				}
+				*items = append(*items, c25Item{it.Key(), it.Value()})
 			}
-			if !ok {
-				return items, nil, nil
-			}
-			items = append(items, c25Item{it.Key(), it.Value()})
 		}
-		return items, errors.New("iterator did not end"), nil
+		var done bool
+		switch {
+		case fn == "map" || consume == 0:
+			drain(c.BeginUntyped(), &items, &done, &err, 64)
+		case consume == 1:
+			// the same collection value iterated twice, one after the other
+			var first []c25Item
+			var firstErr error
+			drain(c.BeginUntyped(), &first, &done, &firstErr, 64)
+			if !done {
+				return first, errors.New("iterator did not end"), nil
+			}
+			done = false
+			drain(c.BeginUntyped(), &items, &done, &err, 64)
+			if done && (fmt.Sprint(first) != fmt.Sprint(items) && firstErr == nil && err == nil) {
+				return items, nil, fmt.Errorf("second iteration of the same collection yields %v, the first yielded %v", items, first)
+			}
+			if done && firstErr != nil && err == nil {
+				// the second pass must fail as well; report the first pass (it failed)
+				return first, nil, nil
+			}
+		default:
+			// two iterators of the same collection value, moving in turns
+			a, b := c.BeginUntyped(), c.BeginUntyped()
+			var other []c25Item
+			var otherDone bool
+			var otherErr error
+			for steps := 0; steps < 64 && !(done && otherDone); steps++ {
+				drain(a, &items, &done, &err, 1+steps%2)
+				drain(b, &other, &otherDone, &otherErr, 1+(steps+1)%3)
+			}
+			if !otherDone {
+				return other, errors.New("iterator did not end"), nil
+			}
+			if done && err == nil && (otherErr != nil || fmt.Sprint(other) != fmt.Sprint(items)) {
+				// whatever is wrong with the second iterator is the result to judge
+				return other, otherErr, nil
+			}
+		}
+		if !done {
+			return items, errors.New("iterator did not end"), nil
+		}
+		return items, err, nil
 	}
 	var want, got []c25Item
 	var wantErr, gotErr, e1, e2 error
